@@ -6,7 +6,8 @@ from vlib import hx, unhx, case_line, show
 THEOREMS = ["C05_args_equiv", "C05_strv_equiv", "C05_pinned_refuted"]
 
 A9 = ["a", " ", '"', "'", "\\", "n", "x", "4", "1"]
-RICH = ["a", " ", '"', "'", "\\", "n", "x", "4", "1", "0", "7", "u", "U", "\t", "\n", "s", "é", "d", "8", "f", "q", "-", "=", "\r", "\U0001F600", "3", "2"]
+RICH = ["a", " ", '"', "'", "\\", "n", "x", "4", "1", "0", "7", "u", "U", "\t", "\n", "s", "é", "d", "8", "f", "q", "-", "=", "\r", "\U0001F600", "3", "2",
+        "\x0b", "\x0c", "\u00a0", "\u3000", "\u2028", "\x85", "\x1f"]          # Unicode / ASCII white space that is NOT a systemd separator
 
 # which splitter each list-valued key is read with (documented kinds; property statement + podman-systemd.unit(5))
 ARGS_KEYS = {"Exec", "PodmanArgs", "GlobalArgs", "Environment", "Label", "Annotation", "Mount", "Secret", "Mask", "Unmask",
@@ -48,7 +49,7 @@ def inventory(ctx):
 def gen(ctx):
     rng = ctx.rng
     S = ["", " ", 'sh -c "" foo', '""', "''", 'a "" b', "a\\", '"abc', "a 'b c' d", '\\x41\\101\\u00e9', "a\\ b", '\t"x" \r\n',
-         'K="v w" L=\\"q', "\\q", "\\8", "\\x4", "\\", "a \\", '"a"b', "a'b'c", '"\\""', "'\\''", "\\s\\t", "\\U0001F600", "\\777", "\\xff", "\\ud800"]
+         'K="v w" L=\\"q', "a\x0bb c", "k=v\u00a0w", "x\u3000y z", "p\x0cq", "\\q", "\\8", "\\x4", "\\", "a \\", '"a"b', "a'b'c", '"\\""', "'\\''", "\\s\\t", "\\U0001F600", "\\777", "\\xff", "\\ud800"]
     L = 6 if ctx.tier == "thorough" else 4
     for k in range(1, L + 1):
         for p in itertools.product(A9, repeat=k):
@@ -127,7 +128,7 @@ def lookups(ctx, S):
 
 def run(ctx):
     ctx.rule = ("raw values over {a,SP,\",',\\,n,x,4,1} exhaustively to length 4 (quick) / 6 (thorough) plus random strings of <=12 symbols over a "
-                "27-symbol escape-rich alphabet and a hand-written corpus; each through SplitWord and SplitStrv, the extracted spec and the real libsystemd; "
+                "34-symbol escape-rich alphabet (incl. VT, FF, NBSP, U+3000, U+2028, U+0085, US: white space that is not a systemd separator) and a hand-written corpus; each through SplitWord and SplitStrv, the extracted spec and the real libsystemd; "
                 "non-trivial = contains a quote or backslash; distinct = distinct (mode, value)")
     use = sdref.available()
     ctx.notes.append("libsystemd second oracle / spec validation: %s" % ("used" if use else "unavailable"))
